@@ -36,11 +36,20 @@ TABLE = {
                 "6 program shapes x parameter 0..7 (incl. empty loop body / empty branch), forRange over sizes 0..4",
                 lambda repo, seed: adapters.run_stmt_battery(repo))],
     "C03": [_mk("B03", "field / pointer-scalar writes across numeric classes, container reads and writes (missing keys, variable keys, pointer and value containers), calls with mixed-class arguments: host state against the property text",
-                "12 target kinds x 7 sources; 22 container cases; 3 call shapes; name injected mid-rule; fixed values",
+                "12 target kinds x 7 sources; 6 pointer targets x 6 sources; 22 container cases; 3 call shapes; name injected mid-rule; fixed values",
                 lambda repo, seed: adapters.run_inject_battery(repo))],
     "C04": [_mk("B04", "random rule sets (ok / failing / stop-tag / stop-then-fail rules, tied and negative saliences) through Execute, ExecuteWithStopTagDirect and the sorted selected variants: order, exactly-once, error policy, stop tag against the property text",
                 "600 rule sets of 1..6 rules x both error policies x 5 entry points per seed",
                 lambda repo, seed: adapters.run_seq_battery(repo, seed=seed or 1, count=600))],
+    "C05": [_mk("B05", "every concurrent / mix / inverse-mix / N-M / selected / as-given / DAG model of Gengine on random rule sets: the set of rules run (each once per occurrence), the documented stage order, the result map, no error when nothing fails; with one failing rule at every position: an error, no hang (8 s watchdog), no crash",
+                "120 rule sets of 2..7 rules (distinct saliences) x 16 entry points per seed; failing-rule sweep on every 4th set",
+                lambda repo, seed: adapters.run_model_battery(repo, seed=seed or 1, count=120))],
+    "C09": [_mk("B09", "faults thrown by injected functions (string / error / int panics, nil-map write, index out of range) in 9 statement shapes incl. conc blocks, and one failing rule at every position of every execution model: an error is returned, nothing hangs (8 s watchdog), the process survives",
+                "5 throwers x 9 shapes; 60 rule sets x 16 entry points per seed",
+                lambda repo, seed: adapters.run_model_battery(repo, seed=(seed or 1) + 400, count=60))],
+    "C13": [_mk("B13", "DAG model on random layerings with unknown names and a rule repeated in a later layer: once per occurrence, last layer last, result map, error and no hang when a rule fails",
+                "80 rule sets per seed (the DAG entry of the model battery)",
+                lambda repo, seed: adapters.run_model_battery(repo, seed=(seed or 1) + 500, count=80))],
     "C08": [_mk("B08", "random sequences of full build / incremental build / removal on a builder and on a pool against a reference model (existence, count, salience, description, sort-model order, versions)",
                 "150 builder sequences x 12 operations and 76 pool sequences x 10 operations over 6 rule names per seed",
                 lambda repo, seed: adapters.run_merge_battery(repo, seed=seed or 1, count=150))],
